@@ -45,7 +45,7 @@ def make_set(jwks, private: bool):
 
 def find_kid(side, ser, tok):
     """-> (position, kid) of the kid member of a produced token, or (None, None)"""
-    if ser == "compact":
+    if ser in ("compact", "7797compact"):
         h = json.loads(R.b64d(tok.split(".")[0]))
         return ("protected", h["kid"]) if "kid" in h else (None, None)
     prot = json.loads(R.b64d(tok["protected"])) if "protected" in tok else {}
@@ -80,13 +80,22 @@ def run_scn(args):
             prot = {"alg": alg}
             if side == "jwe":
                 prot["enc"] = JWE_ENC
+            if ser.startswith("7797"):
+                prot.update({"b64": False, "crit": ["b64"]}); payload = b"key-set_payload_7797"
             unprot = {}
             if hk is not None:
                 (prot if s["pos"] == "protected" else unprot)["kid"] = hk
             if side == "jws":
-                from joserfc import jws
+                from joserfc import jws, rfc7797
                 if ser == "compact":
                     tok = jws.serialize_compact(prot, payload, arg, algorithms=[alg])
+                elif ser == "7797compact":
+                    tok = rfc7797.serialize_compact(prot, payload, arg, algorithms=[alg])
+                elif ser == "7797json":
+                    m = {"protected": prot}
+                    if unprot:
+                        m["header"] = unprot
+                    tok = rfc7797.serialize_json(m, payload, arg, algorithms=[alg])
                 else:
                     m = {"protected": prot}
                     if unprot:
@@ -108,7 +117,7 @@ def run_scn(args):
                 cj = jwks[d["chosen"] - 1]
                 try:
                     if side == "jws":
-                        if ser == "compact":
+                        if ser in ("compact", "7797compact"):
                             _, body = R.jws_verify_compact(tok, J.pub(cj))
                         else:
                             _, body = R.jws_verify_json(tok, [J.pub(cj)])
@@ -130,6 +139,9 @@ def run_scn(args):
         prot = {"alg": alg}
         if side == "jwe":
             prot["enc"] = JWE_ENC
+        b64 = not ser.startswith("7797")
+        if not b64:
+            prot.update({"b64": False, "crit": ["b64"]}); payload = b"key-set_payload_7797"
         unprot = {}
         if hk is not None:
             (prot if s["pos"] == "protected" else unprot)["kid"] = hk
@@ -137,8 +149,8 @@ def run_scn(args):
         arg = (lambda obj: ks) if s["how"] == "callable" else ks
         if side == "jws":
             oct_ = R.jdump(prot)
-            if ser == "compact": tok = R.jws_compact(oct_, payload, alg, sj)
-            elif ser == "flattened": tok = R.jws_flattened(oct_, unprot or None, payload, alg, sj)
+            if ser in ("compact", "7797compact"): tok = R.jws_compact(oct_, payload, alg, sj, b64=b64)
+            elif ser in ("flattened", "7797json"): tok = R.jws_flattened(oct_, unprot or None, payload, alg, sj, b64=b64)
             else: tok = R.jws_general([(oct_, unprot or None, alg, sj)], payload)
             got = J.jws_consume(ser, tok, arg, algorithms=[alg])
         else:
